@@ -1,0 +1,9 @@
+//go:build !verif
+
+// Package verifhook provides named scheduling points for the verification
+// harness. It is only active in builds with the "verif" tag; in normal builds
+// At compiles to nothing.
+package verifhook
+
+// At marks a scheduling point (no-op without the "verif" build tag).
+func At(string) {}
